@@ -307,12 +307,12 @@ def run_ops(ops, observe_env=False, tag=""):
     return out
 
 
-def run_fresh(ops, hashseed="0", observe_env=False):
-    """the same operations in a fresh interpreter process."""
+def run_fresh(ops, hashseed="0", observe_env=False, pyflags=()):
+    """the same operations in a fresh interpreter process (optionally started with interpreter flags such as -O)."""
     e = dict(os.environ)
     e["PYTHONHASHSEED"] = str(hashseed)
     e["PYTHONPATH"] = os.path.join(vlib.REPO, "src")
-    p = subprocess.run([sys.executable, os.path.abspath(__file__), "1" if observe_env else "0"], input=json.dumps(ops), text=True,
+    p = subprocess.run([sys.executable] + list(pyflags) + [os.path.abspath(__file__), "1" if observe_env else "0"], input=json.dumps(ops), text=True,
                        capture_output=True, env=e, timeout=600)
     if p.returncode != 0:
         raise vlib.MachineryError("fresh interpreter failed: " + p.stderr[-2000:])
